@@ -97,18 +97,27 @@ func (muxer *Muxer) process(vp, ap Packetizer) {
 			continue
 		}
 
-		frame := f.(*codec.Frame)
+		muxer.processFrame(f.(*codec.Frame), vp, ap)
+	}
+}
 
-		switch frame.MediaType {
-		case codec.MediaTypeVideo:
-			if err := vp.Packetize(frame); err != nil {
-				muxer.logger.Errorf("tsmuxer: muxVideoTag error - %s", err.Error())
-			}
-		case codec.MediaTypeAudio:
-			if err := ap.Packetize(frame); err != nil {
-				muxer.logger.Errorf("tsmuxer: muxAudioTag error - %s", err.Error())
-			}
-		default:
+// 处理单个帧；异常帧引发的 panic 只丢弃该帧，不能终止整个转换例程
+func (muxer *Muxer) processFrame(frame *codec.Frame, vp, ap Packetizer) {
+	defer func() {
+		if r := recover(); r != nil {
+			muxer.logger.Errorf("tsmuxer: process frame panic；r = %v \n %s", r, debug.Stack())
 		}
+	}()
+
+	switch frame.MediaType {
+	case codec.MediaTypeVideo:
+		if err := vp.Packetize(frame); err != nil {
+			muxer.logger.Errorf("tsmuxer: muxVideoTag error - %s", err.Error())
+		}
+	case codec.MediaTypeAudio:
+		if err := ap.Packetize(frame); err != nil {
+			muxer.logger.Errorf("tsmuxer: muxAudioTag error - %s", err.Error())
+		}
+	default:
 	}
 }
